@@ -581,15 +581,19 @@ func (nt *net) sig() string {
 	return b.String()
 }
 
-func (nt *net) closure() {
+// closure returns the number of passes made, or -1 if the fuel ran out before a pass changed nothing
+func (nt *net) closure() int {
+	n := -1
 	for fuel := 0; fuel < 64; fuel++ {
 		before := nt.sig()
 		nt.pass()
 		if nt.sig() == before {
+			n = fuel + 1
 			break
 		}
 	}
 	nt.closed = true
+	return n
 }
 
 func (nt *net) maxRound() int {
@@ -818,9 +822,13 @@ func (nt *net) apply(op string) string {
 			return "bad-op"
 		}
 		L := len(nt.log)
-		nt.closure()
+		passes := nt.closure()
 		var b strings.Builder
-		fmt.Fprintf(&b, "closed log=%d new=", len(nt.log))
+		if passes < 0 {
+			fmt.Fprintf(&b, "closed p=fuel log=%d new=", len(nt.log))
+		} else {
+			fmt.Fprintf(&b, "closed p=%d log=%d new=", passes, len(nt.log))
+		}
 		if len(nt.log) == L {
 			b.WriteString("-")
 		}
